@@ -1339,3 +1339,149 @@ func vgRunTasks(res *vx.Result, b *vgBounds, f func(*vgSpec)) (specs, inadm, non
 	}
 	return nSpecs.Load(), nInadm.Load(), nNoncanon.Load(), completed
 }
+
+// ---------------------------------------------------------------------------------------------
+// second family: a generic struct type, interfaces that fix its type parameter, assignments
+//
+//	type h[T any] struct { f T }
+//	func (r *h[T]) m1() T   |  m2(x T)  |  m3()          1..3 methods, each result-T / param-T / no T
+//	type i1 interface { subset of those methods at T = int | string }      1..2 interfaces
+//	func Use() { var _ i1 = &h[int]{} ... }     every instantiation h[int], h[string] is assigned to
+//	                                             every interface it satisfies
+//
+// Two interfaces may agree or conflict on the type argument and may each have methods the other
+// lacks. Methods are listed with non-decreasing shapes (renaming), an interface none of whose
+// methods mentions T has no type argument, and the two interfaces are ordered.
+
+type vgGIIface struct {
+	Methods int `json:"m"` // bit k: method k+1 of the type
+	Arg     int `json:"a"` // 0 int, 1 string
+}
+
+type vgGISpec struct {
+	PtrRecv bool        `json:"ptr,omitempty"`
+	Shapes  []int       `json:"shapes"` // per method: 0 result T, 1 parameter T, 2 no T
+	Ifaces  []vgGIIface `json:"ifaces"`
+}
+
+var vgGIArgs = [...]string{"int", "string"}
+
+func (s *vgGISpec) Key() string {
+	var b strings.Builder
+	b.WriteString("GI")
+	if s.PtrRecv {
+		b.WriteString("*")
+	}
+	for _, sh := range s.Shapes {
+		b.WriteByte("rpn"[sh])
+	}
+	for _, i := range s.Ifaces {
+		fmt.Fprintf(&b, "|%s:%s", strconv.FormatInt(int64(i.Methods), 2), vgGIArgs[i.Arg])
+	}
+	return b.String()
+}
+
+func (s *vgGISpec) mentionsT(i vgGIIface) bool {
+	for k, sh := range s.Shapes {
+		if i.Methods>>k&1 == 1 && sh != 2 {
+			return true
+		}
+	}
+	return false
+}
+
+func (s *vgGISpec) Source() string {
+	var b strings.Builder
+	b.WriteString("package p\n\ntype h[T any] struct {\n\tf T\n}\n")
+	recv := "r h[T]"
+	if s.PtrRecv {
+		recv = "r *h[T]"
+	}
+	for k, sh := range s.Shapes {
+		name := "m" + strconv.Itoa(k+1)
+		switch sh {
+		case 0:
+			fmt.Fprintf(&b, "\nfunc (%s) %s() T {\n\treturn r.f\n}\n", recv, name)
+		case 1:
+			fmt.Fprintf(&b, "\nfunc (%s) %s(x T) {\n\t_ = x\n}\n", recv, name)
+		default:
+			fmt.Fprintf(&b, "\nfunc (%s) %s() {\n}\n", recv, name)
+		}
+	}
+	for n, i := range s.Ifaces {
+		fmt.Fprintf(&b, "\ntype i%d interface {\n", n+1)
+		for k, sh := range s.Shapes {
+			if i.Methods>>k&1 == 0 {
+				continue
+			}
+			name := "m" + strconv.Itoa(k+1)
+			switch sh {
+			case 0:
+				fmt.Fprintf(&b, "\t%s() %s\n", name, vgGIArgs[i.Arg])
+			case 1:
+				fmt.Fprintf(&b, "\t%s(x %s)\n", name, vgGIArgs[i.Arg])
+			default:
+				fmt.Fprintf(&b, "\t%s()\n", name)
+			}
+		}
+		b.WriteString("}\n")
+	}
+	b.WriteString("\nfunc Use() {\n")
+	amp := ""
+	if s.PtrRecv {
+		amp = "&"
+	}
+	for n, i := range s.Ifaces {
+		for a, arg := range vgGIArgs {
+			if s.mentionsT(i) && a != i.Arg {
+				continue
+			}
+			fmt.Fprintf(&b, "\tvar _ i%d = %sh[%s]{}\n", n+1, amp, arg)
+		}
+	}
+	b.WriteString("}\n")
+	return b.String()
+}
+
+// vgGIEnumerate lists the family, smallest first (methods, then interfaces).
+func vgGIEnumerate(maxMethods int) []*vgGISpec {
+	var out []*vgGISpec
+	for k := 1; k <= maxMethods; k++ {
+		var shapeSeqs [][]int
+		var rec func(cur []int, min int)
+		rec = func(cur []int, min int) {
+			if len(cur) == k {
+				shapeSeqs = append(shapeSeqs, append([]int(nil), cur...))
+				return
+			}
+			for sh := min; sh < 3; sh++ {
+				rec(append(cur, sh), sh)
+			}
+		}
+		rec(nil, 0)
+		for _, shapes := range shapeSeqs {
+			for _, ptr := range []bool{false, true} {
+				base := vgGISpec{PtrRecv: ptr, Shapes: shapes}
+				var ifaces []vgGIIface
+				for m := 1; m < 1<<k; m++ {
+					for a := 0; a < 2; a++ {
+						i := vgGIIface{m, a}
+						if a == 1 && !base.mentionsT(i) {
+							continue
+						}
+						ifaces = append(ifaces, i)
+					}
+				}
+				for _, i := range ifaces {
+					out = append(out, &vgGISpec{PtrRecv: ptr, Shapes: shapes, Ifaces: []vgGIIface{i}})
+				}
+				for x, i := range ifaces {
+					for _, j := range ifaces[x:] {
+						out = append(out, &vgGISpec{PtrRecv: ptr, Shapes: shapes, Ifaces: []vgGIIface{i, j}})
+					}
+				}
+			}
+		}
+	}
+	return out
+}
